@@ -178,6 +178,8 @@ func (j restoreJob) line() string {
 func restoreSig(m Mut, what string) string {
 	k := "other"
 	switch {
+	case strings.Contains(what, "reporting a passed integrity check"):
+		k = "unverified-success"
 	case strings.Contains(what, ".tmp left"):
 		k = "tmp-left"
 	case strings.Contains(what, "crashed the process"):
